@@ -221,6 +221,30 @@ def rule_r3(facts, rep, rid="C05-R3"):
         rep.violation(rid, isref.def_ + "|shape", "is_ref_url is no longer `!(lower(url).starts_with(scheme) || ...)` over at least http:// and https:// (found %s)" % lits, isref.loc)
 
 
+GENERIC_SCHEME_TESTS = {"contains", "find", "split_once", "parse", "position", "matches", "is_match", "scheme", "has_host", "splitn", "char_indices", "chars", "bytes"}
+
+
+def rule_scheme_list(facts, rep, rid):
+    """What is external is decided by `is_ref_url`.  A closed list of scheme prefixes (`http://`, `https://`, `mailto:`) calls every other url a note: `ftp://host/file`,
+    `tel:123`, `file:///x` get the references extension appended on formatting (`ftp://host/file.md`) - a destination change the property forbids.  Decided here: does the
+    fn test for a scheme in general (a `:` / `://` search, a URL parser), or only for the prefixes it lists?"""
+    isref = facts.fn("liwe::model::is_ref_url")
+    rep.saw_fn(isref)
+    key = isref.def_ + "|every-scheme-is-external"
+    names = set()
+    from vlib import inline as _inl
+    for x in fb.walk(isref.body):
+        if x.get("k") in ("mcall", "call"):
+            names.add(x.get("name") or fb.last_seg(fb.callee(x) or ""))
+    prefixes = sorted(y["v"][2:] for y in fb.walk(isref.body) if y.get("k") == "lit" and str(y.get("v", "")).startswith("s:"))
+    generic = names & GENERIC_SCHEME_TESTS
+    if generic:
+        rep.ok(rid, key, "is_ref_url looks for a scheme in general (%s)" % ", ".join(sorted(generic)), isref.loc)
+    else:
+        rep.violation(rid, key, "is_ref_url knows the schemes %s only: a url with any other scheme (`ftp://host/file`, `tel:123`, `file:///x`) is taken for a note, and formatting "
+                      "with a references extension rewrites its destination (`ftp://host/file.md`)" % prefixes, isref.loc)
+
+
 def rule_r4(facts, rep, rid="C05-R4"):
     B = "liwe::graph::Graph::get_block_references_to"
     I = "liwe::graph::Graph::get_inline_references_to"
